@@ -22,7 +22,7 @@ from common import Rng
 from jaxtyping import AnnotationError, PyTree, TypeCheckError, jaxtyped
 
 LEVEL = "proof"
-THEOREMS = ["C17_payload", "C17_call", "C17_trace", "C17_attrs"]
+THEOREMS = ["C17_payload", "C17_call", "C17_trace", "C17_pytree", "C17_params", "C17_attrs"]
 RULE = (
     "functions generated as in C02 (1-5 jax.Array parameters + optional return annotation over the dim "
     "grammar, shapes mostly consistent with 0-2 planted inconsistencies, some parameters PyTrees of arrays); "
